@@ -181,7 +181,8 @@ MapEq(h, p, q) ==
                              IN IF o.k = "NOTFOUND" THEN "f" ELSE And3(acc, ValEq(h, p[i][2], o))
        IN FoldLeft(f, "t", [i \in 1..Len(p) |-> i])
 ValEq(h, a, b) ==
-  CASE a.k = "float" /\ b.k = "float" ->
+  CASE a.k \in {"any", "anystr"} \/ b.k \in {"any", "anystr"} -> "u"
+    [] a.k = "float" /\ b.k = "float" ->
          LET c == FCmp(a, b) IN IF c = "oom" THEN "u" ELSE T3(c = "eq")
     [] a.k = "int" /\ b.k = "float" ->
          LET c == FCmp(IntToF(a.v), b) IN IF c = "oom" THEN "u" ELSE T3(c = "eq")
@@ -247,8 +248,10 @@ IntBitw(op, a, b) ==
 \* result of a binary operator other than && || == != ; "CONCAT" asks the caller to
 \* allocate the concatenation of two arrays
 Concat == [k |-> "CONCAT"]
+Vague(a) == a.k \in {"any", "anystr"}     \* a value the documentation does not pin down
 BinOp(op, a, b) ==
-  CASE op \in Arith /\ a.k = "int" /\ b.k = "int" -> IntArith(op, a.v, b.v)
+  CASE Vague(a) \/ Vague(b) -> Unspec
+    [] op \in Arith /\ a.k = "int" /\ b.k = "int" -> IntArith(op, a.v, b.v)
     [] op \in Arith /\ a.k = "byte" /\ b.k = "byte" -> ByteArith(op, a.v, b.v)
     [] op \in Arith /\ {a.k, b.k} = {"int", "byte"} -> IntArith(op, ToW(a), ToW(b))
     [] op \in Arith /\ IsNum(a) /\ IsNum(b) (* some float *) ->
@@ -276,7 +279,8 @@ BinOp(op, a, b) ==
     [] OTHER -> Err("kinds")
 
 UnOp(h, op, a) ==
-  CASE op = "!" -> B(IsFalsey(h, a))
+  CASE a.k \in {"any", "anystr"} -> Unspec
+    [] op = "!" -> B(IsFalsey(h, a))
     [] op = "-" /\ a.k = "int" -> I(Neg(a.v))
     [] op = "-" /\ a.k = "float" -> FNeg(a)
     [] op = "-" /\ a.k = "byte" -> Unspec
